@@ -101,6 +101,15 @@ def run(case, rec):
     def with_ids(spec):
         return [[n[0], with_ids(n[1])] + ([{"id": "id-" + n[0]}] if n[0] in idmap else []) for n in spec]
 
+    if case.get("distinct_label_objects"):
+        # the second tree holds equal labels that are other str objects (as after save/load, or labels that were
+        # computed at run time): nodes are matched by data_id / equality, never by the identity of the data
+        def fresh(spec):
+            return [["".join(list(n[0])), fresh(n[1])] for n in spec]
+
+        spec1 = fresh(spec1)
+        rec.cls("equal-labels-are-distinct-objects")
+
     if idmap:
         rec.cls("explicit-data_ids")
     t0, nodes0 = build(with_ids(spec0), name="T0")
@@ -327,7 +336,8 @@ def run(case, rec):
             break
 
 
-LABELS = ["a", "b", "c", "d", "e"]
+# two-character labels: an equal but distinct str object can be made for them (single characters are shared by CPython)
+LABELS = ["aa", "bb", "cc", "dd", "ee"]
 
 
 @st.composite
@@ -342,8 +352,8 @@ def hyp_cases(draw, tier):
     else:
         edit = st.one_of(
             st.tuples(st.just("remove"), st.integers(0, 30), st.integers(0, 5)),
-            st.tuples(st.just("insert"), st.integers(0, 30), st.integers(0, 5), st.sampled_from(LABELS + ["x"])),
-            st.tuples(st.just("rename"), st.integers(0, 30), st.integers(0, 5), st.sampled_from(LABELS + ["x"])),
+            st.tuples(st.just("insert"), st.integers(0, 30), st.integers(0, 5), st.sampled_from(LABELS + ["xx"])),
+            st.tuples(st.just("rename"), st.integers(0, 30), st.integers(0, 5), st.sampled_from(LABELS + ["xx"])),
             st.tuples(st.just("reorder"), st.integers(0, 30), st.integers(0, 5), st.integers(0, 5)),
             st.tuples(st.just("drop_leading"), st.integers(0, 30), st.integers(0, 5)),
             st.tuples(st.just("drop_trailing"), st.integers(0, 30), st.integers(0, 5)),
@@ -351,7 +361,9 @@ def hyp_cases(draw, tier):
         )
         case["edits"] = [list(e) for e in draw(st.lists(edit, min_size=1, max_size=6))]
     if draw(st.sampled_from([0, 0, 1])):
-        case["explicit_ids"] = draw(st.lists(st.sampled_from(LABELS + ["x"]), min_size=1, max_size=4, unique=True))
+        case["explicit_ids"] = draw(st.lists(st.sampled_from(LABELS + ["xx"]), min_size=1, max_size=4, unique=True))
+    if draw(st.sampled_from([0, 1])):
+        case["distinct_label_objects"] = True
     if draw(st.sampled_from([0, 1])):
         case["meta0"] = draw(st.lists(st.integers(0, 13), min_size=1, max_size=4))
         case["meta1"] = draw(st.lists(st.integers(0, 13), min_size=0, max_size=4))
